@@ -121,6 +121,19 @@ func attributables(p *Pool) []int {
 }
 
 // attribute values by code
+// attrString: the strings of attribute values by code (the model sees the code)
+func attrString(code int64) string {
+	switch code {
+	case 5:
+		return "a"
+	case 6:
+		return "zz"
+	case 7:
+		return "b"
+	}
+	return fmt.Sprintf("s%d", code)
+}
+
 func attrValue(code int64) any {
 	switch code {
 	case 0:
@@ -203,21 +216,25 @@ func execExtra(p *Pool, o Op, out *Outcome) (handled bool, bad error) {
 		h := p.add(&Ent{K: KAttr, Attr: at})
 		p.register(at.EntityID(), h)
 	case "NewAttrInt":
-		at, err := acme.NewIntegerAttribute("ai", 0, 0, 10)
+		at, err := acme.NewIntegerAttribute("ai", int(a(0)), int(a(0)), int(a(1))) // default = min, min, max
 		out.Err = err
 		if err == nil {
 			h := p.add(&Ent{K: KAttr, Attr: at})
 			p.register(at.EntityID(), h)
 		}
 	case "NewAttrFloat":
-		at, err := acme.NewFloatAttribute("af", 0, 0, 1)
+		at, err := acme.NewFloatAttribute("af", float64(a(0))/1000, float64(a(0))/1000, float64(a(1))/1000) // thousandths
 		out.Err = err
 		if err == nil {
 			h := p.add(&Ent{K: KAttr, Attr: at})
 			p.register(at.EntityID(), h)
 		}
 	case "NewAttrEnum":
-		at, err := acme.NewEnumAttribute("ae", "a", "b")
+		var vals []string
+		for _, c := range o.A {
+			vals = append(vals, attrString(c))
+		}
+		at, err := acme.NewEnumAttribute("ae", vals...)
 		out.Err = err
 		if err == nil {
 			h := p.add(&Ent{K: KAttr, Attr: at})
@@ -680,9 +697,9 @@ func (g *Gen) prefixExtra() []Op {
 	add("NewUnit")
 	add("NewUnit")
 	add("NewAttrString")
-	add("NewAttrInt")
-	add("NewAttrFloat")
-	add("NewAttrEnum")
+	add("NewAttrInt", 0, 10)
+	add("NewAttrFloat", 0, 1000)
+	add("NewAttrEnum", 5, 7)
 	add("NewBuilder")
 	add("NewBuilder")
 	return ops
